@@ -105,7 +105,7 @@ func checkClause(prog *Program, fi *FuncInfo, cl *Clause, pos token.Pos, ghostTy
 			if m == nil {
 				break
 			}
-			to, ok := renameFor(prog, fi, m[1], pos)
+			to, ok := renameFor(prog, fi, m[1], pos, cl.Loop > 0)
 			if !ok {
 				break
 			}
@@ -134,6 +134,7 @@ func checkClause(prog *Program, fi *FuncInfo, cl *Clause, pos token.Pos, ghostTy
 			err = types.CheckExpr(prog.Fset, fi.Pkg.Types, pos, expr, info)
 			if err == nil {
 				renameNotes[fi.Key+": clause re-stated after a rename: "+m[1]+" -> "+to] = true
+				cl.Renamed = true
 			}
 		}
 		if err != nil {
@@ -221,7 +222,7 @@ func localsOf(fi *FuncInfo) []localInfo {
 var renameCache = map[string]map[string]string{}
 
 // renameFor: what the variable `old` of the delivered tree is called in the current function, if that can be told.
-func renameFor(prog *Program, fi *FuncInfo, old string, pos token.Pos) (string, bool) {
+func renameFor(prog *Program, fi *FuncInfo, old string, pos token.Pos, inLoop bool) (string, bool) {
 	// the clause may be evaluated inside a helper the function calls (a loop that was moved into an extracted helper):
 	// then the candidates are the helper's variables
 	scopeFn := fi
@@ -232,7 +233,7 @@ func renameFor(prog *Program, fi *FuncInfo, old string, pos token.Pos) (string, 
 			}
 		}
 	}
-	ckey := fi.Key + "@" + scopeFn.Key
+	ckey := fmt.Sprintf("%s@%s@%v", fi.Key, scopeFn.Key, inLoop)
 	m, ok := renameCache[ckey]
 	if !ok {
 		m = map[string]string{}
@@ -267,16 +268,20 @@ func renameFor(prog *Program, fi *FuncInfo, old string, pos token.Pos) (string, 
 		for t, gone := range goneBy {
 			fresh := append([]localInfo(nil), newBy[t]...)
 			var rest []localInfo
+			asResult := func(g localInfo) {
+				// a named result that is gone: the ghost names result / result<i> denote the same value
+				if nres == 1 {
+					m[g.Name] = "result"
+				} else {
+					m[g.Name] = g.Role
+				}
+			}
 			for _, g := range gone {
-				if strings.HasPrefix(g.Role, "result") {
-					// a named result that is gone: the ghost names result / result<i> denote the same value
-					if nres == 1 {
-						m[g.Name] = "result"
-					} else {
-						m[g.Name] = g.Role
-					}
+				if strings.HasPrefix(g.Role, "result") && (!inLoop || len(fresh) == 0) {
+					asResult(g)
 					continue
 				}
+				// (inside a loop the value lives in a variable: a named result turned into a local accumulator)
 				rest = append(rest, g)
 			}
 			// pair by name similarity first (longest common substring, case-insensitive), then by declaration order
@@ -906,9 +911,40 @@ func VerifyFunc(w *World, prog *Program, fi *FuncInfo) *FuncResult {
 			ls = append(ls, litOrd{l, o})
 		}
 		sort.Slice(ls, func(i, j int) bool { return ls[i].ord < ls[j].ord })
+		// literals a function with a `preserves` frame RETURNS (iterators run later, by the caller): the caller assumes
+		// that running them respects the same frame, so the frame is proved on each such literal as a unit too
+		returned := map[*ast.FuncLit]bool{}
+		if fi.Contr != nil && !fi.Contr.Has("trusted", 0) {
+			if pfx, _ := preservesOf(fi.Contr); pfx != "" {
+				ast.Inspect(fi.Decl.Body, func(n ast.Node) bool {
+					if r, ok := n.(*ast.ReturnStmt); ok {
+						for _, e := range r.Results {
+							if l, ok := ast.Unparen(e).(*ast.FuncLit); ok {
+								returned[l] = true
+							}
+						}
+					}
+					return true
+				})
+			}
+		}
+		fv.framedLits = returned
 		for _, l := range ls {
-			if fi.Contr != nil && (fi.Contr.Has("ensures", l.ord) || fi.Contr.Has("yields", l.ord) || fi.Contr.Has("yields2", l.ord) || fi.Contr.Has("nopanic", l.ord) || fi.Contr.Has("noglobals", l.ord) || fi.Contr.Has("noglobalstate", l.ord)) {
+			if fi.Contr != nil && (fi.Contr.Has("ensures", l.ord) || fi.Contr.Has("invariant", l.ord) || fi.Contr.Has("yields", l.ord) || fi.Contr.Has("yields2", l.ord) || fi.Contr.Has("nopanic", l.ord) || fi.Contr.Has("noglobals", l.ord) || fi.Contr.Has("noglobalstate", l.ord)) {
 				fv.verifyUnit(l.lit)
+			} else if returned[l.lit] && len(l.lit.Body.List) > 0 {
+				// frame only: the other obligations of an uncontracted literal are not claims of this contract
+				n0 := len(fv.obls)
+				nb := len(fv.bindErrors)
+				fv.verifyUnit(l.lit)
+				kept := fv.obls[:n0]
+				for _, o := range fv.obls[n0:] {
+					if o.Class == "R" {
+						kept = append(kept, o)
+					}
+				}
+				fv.obls = kept
+				fv.bindErrors = fv.bindErrors[:nb]
 			}
 		}
 	}()
@@ -944,6 +980,46 @@ func VerifyFunc(w *World, prog *Program, fi *FuncInfo) *FuncResult {
 }
 
 var debugPanics = false
+
+func (fv *FuncVerifier) litTag() string {
+	if fv.curLit > 0 {
+		return fmt.Sprintf("lit%d:", fv.curLit)
+	}
+	return ""
+}
+
+// assignedOnce: the local variable v is assigned exactly once in the function under verification (its defining
+// assignment) and its address is never taken.
+func (fv *FuncVerifier) assignedOnce(v *types.Var) bool {
+	n := 0
+	ok := true
+	ast.Inspect(fv.fn.Decl, func(nd ast.Node) bool {
+		switch x := nd.(type) {
+		case *ast.AssignStmt:
+			for _, l := range x.Lhs {
+				if id, isId := ast.Unparen(l).(*ast.Ident); isId && fv.info.ObjectOf(id) == v {
+					n++
+				}
+			}
+		case *ast.ValueSpec:
+			for i, nm := range x.Names {
+				if fv.info.Defs[nm] == v && i < len(x.Values) {
+					n++
+				}
+			}
+		case *ast.UnaryExpr:
+			if id, isId := ast.Unparen(x.X).(*ast.Ident); isId && x.Op == token.AND && fv.info.ObjectOf(id) == v {
+				ok = false
+			}
+		case *ast.IncDecStmt:
+			if id, isId := ast.Unparen(x.X).(*ast.Ident); isId && fv.info.ObjectOf(id) == v {
+				ok = false
+			}
+		}
+		return true
+	})
+	return ok && n == 1
+}
 
 // canonicalIndexLoop recognises `for i := 0; i < len(S); i++ { ... }` (S an identifier or a selector path) and
 // returns the index variable and S. Such a loop is the same iteration as `for i := range S` when the body neither
@@ -1099,7 +1175,8 @@ func (fv *FuncVerifier) verifyUnit(lit *ast.FuncLit) {
 		// captured LOCALS of the enclosing function get their (arbitrary) entry value now, so that old(x) in the
 		// literal's clauses and x in its body denote the same value until the literal assigns x
 		seenCap := map[types.Object]bool{}
-		ast.Inspect(lit.Body, func(n ast.Node) bool {
+		var capture func(n ast.Node) bool
+		capture = func(n ast.Node) bool {
 			id, ok := n.(*ast.Ident)
 			if !ok {
 				return true
@@ -1118,14 +1195,29 @@ func (fv *FuncVerifier) verifyUnit(lit *ast.FuncLit) {
 				return true
 			}
 			if _, isSig := v.Type().Underlying().(*types.Signature); isSig {
-				return true // function-typed locals (closures) are resolved through their literals
+				// a function-typed local that is bound ONCE, to a literal (`helper := func...`), denotes that literal
+				// inside this unit too: calls of it execute the literal's body (its own captured variables are
+				// captured here as well); any other function-typed local stays an unknown function value
+				if l2 := fv.closureLits[v]; l2 != nil && l2 != lit && fv.assignedOnce(v) && (fv.modularLits == nil || fv.modularLits[v] == nil) {
+					seenCap[v] = true
+					t := fv.fresh("closure", SRef)
+					if st.clos == nil {
+						st.clos = map[string]*Closure{}
+					}
+					st.clos[t.S] = &Closure{Lit: l2, Info: info}
+					st.Assume(Not(App(SBool, "=", t, Null)))
+					st.vars[v] = t
+					ast.Inspect(l2.Body, capture)
+				}
+				return true
 			}
 			seenCap[v] = true
 			nv := fv.fresh(v.Name(), fv.sortOf(v.Type()))
 			st.vars[v] = nv
 			st.Assume(fv.typeInv(nv, v.Type()))
 			return true
-		})
+		}
+		ast.Inspect(lit.Body, capture)
 	} else {
 		declare(fi.Decl.Recv)
 	}
@@ -1186,6 +1278,12 @@ func (fv *FuncVerifier) verifyUnit(lit *ast.FuncLit) {
 	}
 	for _, cl := range fi.Contr.Get("assume", 0, fv.curLit) {
 		st.Assume(fv.evalClause(st, cl, pos, nil, nil))
+	}
+	if lit != nil {
+		// `lit k invariant I` (callback invariant): I holds whenever the callback is entered ...
+		for _, cl := range fi.Contr.Get("invariant", 0, fv.curLit) {
+			st.Assume(fv.evalClause(st, cl, pos, nil, nil))
+		}
 	}
 	// `stable p.f, p.f.g`: these cells are assumed not to be modified by calls with unknown effects
 	for _, cl := range fi.Contr.Get("stable", 0, fv.curLit) {
@@ -1314,6 +1412,16 @@ func (fv *FuncVerifier) verifyUnit(lit *ast.FuncLit) {
 				// later postconditions on this path may rely on earlier ones (each is checked separately)
 				s2.Assume(g)
 			}
+			if lit != nil {
+				// ... and every run of the callback re-establishes it
+				for _, cl := range fi.Contr.Get("invariant", 0, fv.curLit) {
+					g := fv.evalClause(s2, cl, pos, names, nil)
+					fv.obls = append(fv.obls, &Obligation{Func: fi.Key, Class: "F", Kind: "cbinv", Site: site, Pos: fv.pos(site),
+						Assume: append([]Term(nil), s2.pc...), Goal: g, Desc: "callback invariant re-established by every run of the callback: " + cl.Text, consts: fv.consts,
+						Name: fmt.Sprintf("%s#F.cbinv[%s%d].preserved", fi.Key, litPrefix(fv.curLit), cl.Ord)})
+					s2.Assume(g)
+				}
+			}
 			// iterator literal: `yields E` at function level (for the returned literal) => stopped || out == E
 			if lit != nil && fv.yieldVar != nil {
 				ycls := append(append([]*Clause(nil), fi.Contr.Get("yields", 0, fv.curLit)...), fi.Contr.Get("yields2", 0, fv.curLit)...)
@@ -1339,7 +1447,7 @@ func (fv *FuncVerifier) verifyUnit(lit *ast.FuncLit) {
 				}
 			}
 			retIdx++
-			if lit == nil {
+			if lit == nil || fv.framedLits[lit] {
 				fv.frameObligations(s2, site)
 			}
 			fv.obls = append(fv.obls, &Obligation{Func: fi.Key, Class: "V", Kind: "exit-reachable", Site: site, Pos: fv.pos(site),
@@ -1486,7 +1594,7 @@ func (fv *FuncVerifier) frameObligations(s2 *State, site token.Pos) {
 	}
 	mk0 := func(name string, goal Term, desc string) {
 		fv.obls = append(fv.obls, &Obligation{Func: fv.fn.Key, Class: "R", Kind: "frame", Site: site, Pos: fv.pos(site),
-			Assume: append([]Term(nil), s2.pc...), Goal: goal, Desc: desc, consts: fv.consts, Name: fv.fn.Key + "#R.frame[" + name + "]"})
+			Assume: append([]Term(nil), s2.pc...), Goal: goal, Desc: desc, consts: fv.consts, Name: fv.fn.Key + "#R.frame[" + fv.litTag() + name + "]"})
 	}
 	if !c.Has("effects", 0) {
 		for _, k := range []string{"fx", "calls", "pipeline"} {
@@ -1504,7 +1612,7 @@ func (fv *FuncVerifier) frameObligations(s2 *State, site token.Pos) {
 	}
 	mk := func(name string, goal Term, desc string) {
 		fv.obls = append(fv.obls, &Obligation{Func: fv.fn.Key, Class: "R", Kind: "frame", Site: site, Pos: fv.pos(site),
-			Assume: append([]Term(nil), s2.pc...), Goal: goal, Desc: desc, consts: fv.consts, Name: fv.fn.Key + "#R.frame[" + name + "]"})
+			Assume: append([]Term(nil), s2.pc...), Goal: goal, Desc: desc, consts: fv.consts, Name: fv.fn.Key + "#R.frame[" + fv.litTag() + name + "]"})
 	}
 	keyOK := func(k string) bool {
 		if !star {
